@@ -1,0 +1,6 @@
+//go:build !verif
+// +build !verif
+
+package geometry
+
+func verifStep(site string, n, bound int) int { return n }
